@@ -208,9 +208,9 @@ impl Property for C06 {
 pub struct C09;
 impl Property for C09 {
     const ID: &'static str = "C09";
-    type Case = History;
-    fn strategy(_tier: Tier) -> BoxedStrategy<History> {
-        (strat::ring_cfg(3), proptest::collection::vec(strat::step(strat::kind_basic().boxed(), 3, 1), 0..70)).prop_map(|(cfg, steps)| History { cfg, steps, teardown: None }).boxed()
+    type Case = HCase;
+    fn strategy(_tier: Tier) -> BoxedStrategy<HCase> {
+        with_multi((strat::ring_cfg(3), proptest::collection::vec(strat::step(strat::kind_basic().boxed(), 3, 1), 0..70)).prop_map(|(cfg, steps)| History { cfg, steps, teardown: None }).boxed(), 1)
     }
     fn cases(tier: Tier) -> u32 {
         tier.pick(6_000, 400_000)
@@ -218,14 +218,19 @@ impl Property for C09 {
     fn level() -> &'static str {
         "fault_enumeration"
     }
-    fn run(case: &History, ctx: &mut Ctx) {
+    fn run(case: &HCase, ctx: &mut Ctx) {
+        let case = match case {
+            HCase::Seq(h) => h,
+            HCase::Multi(m) => return run_multi(m, ctx, "C09", &["restart"]),
+            HCase::Drop(_) => return,
+        };
         let feats = interp::execute(case, Oracles { c09: true, ..Oracles::default() }, ctx);
         ctx.nontrivial = feats.contains("restart");
         classes(ctx, &feats);
         ctx.fingerprint = super::fingerprint(case, &feats);
     }
     fn rule() -> &'static str {
-        "per operation the script holds a fault sequence {EINTR,ECANCELED}^k, k<=3, followed by a final outcome (success with generated magnitude, or an errno); interrupted attempts scribble the destination buffer. Oracle: k+1 consumed SQEs per future, byte-identical (all 64 bytes), the future never yields EINTR/ECANCELED, the final value is the last attempt's and contains no scribbled bytes. Non-trivial = at least one re-issue happened. Distinct = distinct (ring class, feature set) fingerprints."
+        "per operation the script holds a fault sequence {EINTR,ECANCELED}^k, k<=3, followed by a final outcome (success with generated magnitude, or an errno); interrupted attempts scribble the destination buffer. Oracle: k+1 consumed SQEs per future, byte-identical (all 64 bytes), the future never yields EINTR/ECANCELED, the final value is the last attempt's and contains no scribbled bytes. Non-trivial = at least one re-issue happened. Distinct = distinct (ring class, feature set) fingerprints. One case in five runs the multi-completion driver (multishot accept, zero-copy sends, writes) where the kernel ends a live operation with -EINTR / -ECANCELED as its final completion: every result posted before must still be yielded in order, then the next poll must re-issue the operation with a byte-identical submission (or wait for queue space), never hand the error or an end-of-stream to the caller; non-trivial (multi) = such a re-issue happened."
     }
     fn assumptions() -> Vec<&'static str> {
         vec![SIM_ASSUMPTION]
